@@ -111,6 +111,9 @@ func (s *snapshots) open() (*snapshot, error) {
 	if err != nil {
 		return nil, err
 	}
+	if verif {
+		verifPoint("snapopen.meta", s.dir)
+	}
 	file := snapFile(s.dir, meta.index)
 
 	// validate file size
